@@ -344,7 +344,10 @@ func (c *Conn) Read(b []byte) (int, error) {
 			_, inner, err := c.handleClientHello(r, true)
 			if err != nil {
 				c.readErr = err
-				convertErrorsToAlerts(c, err)
+				// The alert goes straight to the transport. Conn.Write
+				// may be running in another goroutine, and its
+				// buffer is not shared with this one.
+				convertErrorsToAlerts(c.Conn, err)
 				return 0, err
 			}
 			r, c.readErr = inner.Marshal()
